@@ -283,6 +283,89 @@ func extractPipeline(f *ast.File) ([]string, bool, error) {
 	return steps, guarded, nil
 }
 
+// CheckFunctions hands both f.Arguments and f.Throws to checkFunctionFields
+func extractFunctionFieldsChecked(f *ast.File) bool {
+	fd := findFunc(f, "checker", "CheckFunctions")
+	if fd == nil || findFunc(f, "", "checkFunctionFields") == nil {
+		return false
+	}
+	seen := map[string]bool{}
+	ast.Inspect(fd.Body, func(n ast.Node) bool {
+		ce, ok := n.(*ast.CallExpr)
+		if !ok {
+			return true
+		}
+		if id, ok := ce.Fun.(*ast.Ident); ok && id.Name == "checkFunctionFields" {
+			for _, a := range ce.Args {
+				if n := selName(a); n != "" {
+					seen[n] = true
+				}
+			}
+		}
+		return true
+	})
+	return seen["Arguments"] && seen["Throws"]
+}
+
+// ResolveFunction calls ResolveConstValue inside the loop over Arguments and inside the loop over Throws
+func extractFunctionDefaultsResolved(f *ast.File) bool {
+	fd := findFunc(f, "resolver", "ResolveFunction")
+	if fd == nil {
+		return false
+	}
+	seen := map[string]bool{}
+	ast.Inspect(fd.Body, func(n ast.Node) bool {
+		rs, ok := n.(*ast.RangeStmt)
+		if !ok {
+			return true
+		}
+		over := selName(rs.X)
+		ast.Inspect(rs.Body, func(m ast.Node) bool {
+			if ce, ok := m.(*ast.CallExpr); ok {
+				if s, ok := ce.Fun.(*ast.SelectorExpr); ok && s.Sel.Name == "ResolveConstValue" {
+					seen[over] = true
+				}
+			}
+			return true
+		})
+		return true
+	})
+	return seen["Arguments"] && seen["Throws"]
+}
+
+// getEnum's recursion is guarded: some function called from getEnum tests an index expression on a
+// map parameter before recursing (the visited set)
+func extractGetEnumGuarded(f *ast.File) bool {
+	guarded := false
+	for _, d := range f.Decls {
+		fd, ok := d.(*ast.FuncDecl)
+		if !ok || !strings.HasPrefix(fd.Name.Name, "getEnum") || fd.Body == nil {
+			continue
+		}
+		maps := map[string]bool{}
+		for _, p := range fd.Type.Params.List {
+			if _, ok := p.Type.(*ast.MapType); ok {
+				for _, n := range p.Names {
+					maps[n.Name] = true
+				}
+			}
+		}
+		ast.Inspect(fd.Body, func(n ast.Node) bool {
+			is, ok := n.(*ast.IfStmt)
+			if !ok {
+				return true
+			}
+			if ix, ok := is.Cond.(*ast.IndexExpr); ok {
+				if id, ok := ix.X.(*ast.Ident); ok && maps[id.Name] && returnsInBody(is.Body) {
+					guarded = true
+				}
+			}
+			return true
+		})
+	}
+	return guarded
+}
+
 func leanBool(b bool) string {
 	if b {
 		return "true"
@@ -346,6 +429,9 @@ func extract(repo string) error {
 	}
 	p("/-- calls of sdk.InvokeThriftgo in source order -/\ndef pipeline : List Step := [%s]\n\n", strings.Join(st, ", "))
 	p("/-- every stage before Persist is followed by `if err != nil { return … }` (CircleDetect: a returning `if`) -/\ndef everyStageGuarded : Bool := %s\n\n", leanBool(guarded))
+	p("/-- CheckFunctions runs checkFunctionFields on the arguments and on the throws list -/\ndef functionFieldsChecked : Bool := %s\n\n", leanBool(extractFunctionFieldsChecked(ck)))
+	p("/-- ResolveFunction resolves the default values of arguments and of throws entries -/\ndef functionDefaultsResolved : Bool := %s\n\n", leanBool(extractFunctionDefaultsResolved(sm)))
+	p("/-- getEnum's recursion over typedefs is guarded by a visited set -/\ndef getEnumGuarded : Bool := %s\n\n", leanBool(extractGetEnumGuarded(sm)))
 	p("def cfg : Cfg := ⟨checkOrder, unionSetsHasDefault, typeCats, handlePanicExits⟩\n\nend Generated.C04\n")
 	fmt.Print(w.String())
 	return nil
